@@ -11,6 +11,7 @@ import (
 	"time"
 
 	"github.com/theory/sqljson/path"
+	"github.com/theory/sqljson/path/exec"
 	"github.com/theory/sqljson/path/types"
 
 	"verif/harness/run"
@@ -36,6 +37,7 @@ type DTRec struct {
 	JSON   []int      `json:"json"`
 	Unm    DTOut      `json:"unm"`
 	PStr   []int      `json:"pstr"`
+	PStz   []int      `json:"pstz"` // .string() under WithTZ in another context zone
 	Data   []int      `json:"data"`
 	Up     DTOut      `json:"up"`
 	Down   DTOut      `json:"down"`
@@ -99,7 +101,7 @@ func valueRec(id int, ty string, t time.Time, zone string) DTRec {
 		v = types.NewTimestampTZ(ctx, t)
 	}
 	r := DTRec{ID: id, Kind: "value", Ty: ty, Zone: zone, In: noDT, Val: wire.FromDateTime(v), Parsed: DTOut{St: "no", V: noDT}, Unm: DTOut{St: "err", V: noDT},
-		JSON: []int{}, PStr: []int{}, Data: []int{}, Up: DTOut{St: "no", V: noDT}, Down: DTOut{St: "no", V: noDT}}
+		JSON: []int{}, PStr: []int{}, PStz: []int{}, Data: []int{}, Up: DTOut{St: "no", V: noDT}, Down: DTOut{St: "no", V: noDT}}
 	text := v.String()
 	if protect(func() {
 		if p, ok := types.ParseTime(ctx, text, -1); ok {
@@ -120,15 +122,22 @@ func valueRec(id int, ty string, t time.Time, zone string) DTRec {
 			r.Unm = DTOut{St: "ok", V: wire.FromDateTime(back)}
 		}
 	}
-	protect(func() {
-		p := path.MustParse("$." + dtMethodOf[ty] + "().string()")
-		res, err := p.Query(ctx, text)
-		if err == nil && len(res) == 1 {
-			if s, ok := res[0].(string); ok {
-				r.PStr = wire.Bytes(s)
+	pstr := func(c context.Context, opts ...exec.Option) []int {
+		out := []int{}
+		protect(func() {
+			p := path.MustParse("$." + dtMethodOf[ty] + "().string()")
+			res, err := p.Query(c, text, opts...)
+			if err == nil && len(res) == 1 {
+				if s, ok := res[0].(string); ok {
+					out = wire.Bytes(s)
+				}
 			}
-		}
-	})
+		})
+		return out
+	}
+	r.PStr = pstr(ctx)
+	other, _ := run.Zone([]string{"+10:00", "America/New_York", "-04:00"}[id%3])
+	r.PStz = pstr(types.ContextWithTZ(context.Background(), other), exec.WithTZ())
 	return r
 }
 
@@ -136,7 +145,7 @@ func commuteRec(id int, ty string, t time.Time, zone string) DTRec {
 	loc, _ := run.Zone(zone)
 	ctx := types.ContextWithTZ(context.Background(), loc)
 	r := DTRec{ID: id, Kind: "commute", Ty: ty, Zone: zone, In: noDT, Val: noDT, Parsed: DTOut{St: "no", V: noDT}, Unm: DTOut{St: "err", V: noDT},
-		JSON: []int{}, PStr: []int{}, Data: []int{}, Up: DTOut{St: "no", V: noDT}, Down: DTOut{St: "no", V: noDT}}
+		JSON: []int{}, PStr: []int{}, PStz: []int{}, Data: []int{}, Up: DTOut{St: "no", V: noDT}, Down: DTOut{St: "no", V: noDT}}
 	protect(func() {
 		if ty == "date" {
 			d := types.NewDate(t)
@@ -270,7 +279,7 @@ func init() {
 				for _, ty := range []string{"date", "time", "timetz", "ts", "tstz"} {
 					id++
 					recs = append(recs, DTRec{ID: id, Kind: "hostile", Ty: ty, Zone: "UTC", In: noDT, Val: noDT, Parsed: DTOut{St: "no", V: noDT},
-						JSON: []int{}, PStr: []int{}, Data: wire.Bytes(string(data)), Unm: unmarshalInto(ty, data), Up: DTOut{St: "no", V: noDT}, Down: DTOut{St: "no", V: noDT}})
+						JSON: []int{}, PStr: []int{}, PStz: []int{}, Data: wire.Bytes(string(data)), Unm: unmarshalInto(ty, data), Up: DTOut{St: "no", V: noDT}, Down: DTOut{St: "no", V: noDT}})
 				}
 			}
 			return recs
